@@ -1,8 +1,8 @@
 #!/usr/bin/env python3
 """SMT-lemma table of ../README.md and coverage check of Secp/SecpSMT.lean + Secp/SecpSMT2.lean + Secp/SecpSMT3.lean.
 
-Reads the `//@ lemma name(params) {lean: ...}: body` lines of the three contract files (read-only), looks up
-`theorem <name>` in section 3 of Secp/SecpSMT.lean, Secp/SecpSMT2.lean and Secp/SecpSMT3.lean, and
+Reads the `//@ lemma name(params) {lean: ...}: body` lines of the three contract files and of the lemma programs
+/verif/clients/*.go (all read-only), looks up `theorem <name>` in section 3 of Secp/SecpSMT.lean, Secp/SecpSMT2.lean and Secp/SecpSMT3.lean, and
   * reports lemma lines without a theorem, theorems missing from build.sh's THEOREMS list, and theorems
     without an entry in RESTS below (exit status 1 if any),
   * treats the lemmas of ASSUMED below as intentionally unproved: each must carry a `{lean: ASSUMED ...}` tag in
@@ -11,12 +11,15 @@ Reads the `//@ lemma name(params) {lean: ...}: body` lines of the three contract
     SecpSMT.lean; a lemma tagged ASSUMED that is not in the allowlist and has no theorem is an error; one that is
     tagged ASSUMED but HAS a theorem (proved after the tag was written; the contract files are read-only here) is
     reported as a note and treated as proved (listed in STALE_TAG_OK below),
+  * reads the `//@ define` / `//@ const` / `//@ declare` lines of /verif/clients/*.go (none at the time of writing): each
+    name must have a `def`/`abbrev` of the same name in the vocabulary of SecpSMT.lean (before section 3),
   * checks that every line between `-- BEGIN SHARED` and `-- END SHARED` of SecpSMT2.lean (the vocabulary it has
     to repeat because it cannot import SecpSMT.lean) is verbatim a line of SecpSMT.lean,
   * rewrites the block between `<!-- BEGIN SMT LEMMAS -->` and `<!-- END SMT LEMMAS -->` of ../README.md
     (statement column = source text from `theorem` up to `:=`, whitespace collapsed).
 Plain python3, no third-party modules.  usage: smt_table.py [--check]   (--check: do not rewrite README.md)
 """
+import glob
 import os
 import re
 import sys
@@ -25,6 +28,16 @@ here = os.path.dirname(os.path.abspath(__file__))
 root = os.path.dirname(here)
 CONTRACTS = ["/repo/internal/field/contracts_verif.go", "/repo/internal/scalar/contracts_verif.go",
              "/repo/contracts_verif.go"]
+CLIENT_GLOB = "/verif/clients/*.go"   # lemma programs of package secp256k1: same `//@` syntax and vocabulary
+
+
+def client_files():
+    return sorted(glob.glob(CLIENT_GLOB))
+
+
+def label(f):
+    """path shown in the table: relative to /repo for the contract files, to /verif for the lemma programs"""
+    return os.path.relpath(f, "/repo") if f.startswith("/repo/") else os.path.relpath(f, "/verif")
 
 PRIME_P = "`Secp.prime_P`"
 PRIME_N = "`Secp.prime_N`"
@@ -91,6 +104,16 @@ RESTS = {
                      "then `Affine.Point.add_of_X_ne` (`hom_T`); `chord_on_curve`; `Secp.pt_of_affine` (E4); `Secp.hypP`; " + PRIME_P,
     "chord_on_curve": "`linear_combination` (x2 - x3)·e1 + (x3 - x1)·e2 + (x3 - x1)(y2 + y1 + l(x2 - x1))·(l(x2 - x1) = y2 - y1), "
                       "then cancel `x2 - x1 ≠ 0` (`mul_eq_zero`); any field, any A', B'",
+    "same_x_parity": "`Secp.eqn_iff` (SecpB) on both points, `(y - y')(y + y') = 0` (`mul_eq_zero`); `y = -y'` with `y' ≠ 0` "
+                     "contradicts `neg_parity` (P odd); proof irrelevance for the `Nonsingular` component",
+    "same_xy": "`cases` on `Affine.Point`; proof irrelevance for the `Nonsingular` component",
+    "aff_on_curve": "`Secp.eqn_iff` (SecpB); definitions of `aff`, `affx`, `affy`, `Secp.mkPt`",
+    "issq_of_sq": "definition of `IsSquare`",
+    "fofint_eq": "`ZMod.natCast_zmod_val`",
+    "bits_total": "`bitsumf_eq : bitsumf v n = v % 2 ^ n` (induction, `Finset.sum_range_succ`, `Int.ediv_ediv_of_nonneg`, `Int.emod_def`); "
+                  "`Int.emod_eq_of_lt`",
+    "add_neg_cancel": "`add_neg_cancel_right`",
+    "ninv_mul": "`inv_mul_cancel₀`; " + PRIME_N,
 }
 # lemmas the contract files tag `{lean: ASSUMED ...}`: intentionally without a theorem (and never `ok` in the stamp).
 # Currently none (`iso_hom_chord` was the only one; it is proved in SecpSMT3.lean).
@@ -103,13 +126,31 @@ LEANFILES = ["SecpSMT", "SecpSMT2", "SecpSMT3"]
 
 def lemma_lines():
     out = []
-    for f in CONTRACTS:
+    for f in CONTRACTS + client_files():
         with open(f, encoding="utf-8") as fh:
             for line in fh:
                 m = re.match(r"\s*//@ lemma (\w+)\((.*?)\)\s*(\{[^}]*\})?\s*:\s*(.*)$", line)
                 if m:
-                    out.append((m.group(1), os.path.relpath(f, "/repo"), m.group(4).strip(), m.group(3) or ""))
+                    out.append((m.group(1), label(f), m.group(4).strip(), m.group(3) or ""))
     return out
+
+
+def client_vocabulary():
+    """(name, file) of every `//@ define` / `//@ const` / `//@ declare` line of the lemma programs"""
+    out = []
+    for f in client_files():
+        with open(f, encoding="utf-8") as fh:
+            for line in fh:
+                m = re.match(r"\s*//@ (define|const|declare) (\w+)", line)
+                if m:
+                    out.append((m.group(2), label(f)))
+    return out
+
+
+def vocabulary_defs():
+    """names defined (`def` / `abbrev`, possibly `noncomputable`) in SecpSMT.lean before section 3"""
+    head = read("SecpSMT").split("## 3. The lemmas", 1)[0]
+    return set(re.findall(r"^(?:noncomputable )?(?:def|abbrev) (\w+)\b", head, re.M))
 
 
 def read(mod):
@@ -156,6 +197,10 @@ def main():
         print("theorem declared twice:", d); bad = 1
     for l in shared_mismatches():
         print("SecpSMT2.lean SHARED line is not a line of SecpSMT.lean:", l[:100]); bad = 1
+    vdefs = vocabulary_defs()
+    for name, f in client_vocabulary():
+        if name not in vdefs:
+            print("no `def %s` in the vocabulary of SecpSMT.lean for the define/const/declare line of %s" % (name, f)); bad = 1
     seen = set()
     rows = []
     nthm = 0
